@@ -166,6 +166,75 @@ def job(jc, spec):
         jc.sample(dict(case=label, first_row=first, graphs=n))
 
 
+def job_history(jc, spec):
+    """C19 through the public mutators: a graph built with add_node / add_edge / add_catch_edge is numbered, then changed
+    by one more mutator call (or the entry is moved), and numbered again; the second numbering must be valid for the
+    graph as it is then"""
+    N, first = spec
+    graph = graphmod()
+    eng = jc.new_engine(max_paths=10 ** 7)
+    label = 'C19 history N=%d' % N
+    pairs = [(i, j) for i in range(N) for j in range(N) if i != j]
+
+    def go():
+        nodes = [Nd(i) for i in range(N)]
+        g = graph.Graph()
+        for x in nodes:
+            g.add_node(x)
+        g.entry = nodes[0]
+        kind = {}
+        for k, (i, j) in enumerate(pairs):
+            c = first[k] if k < len(first) else eng.choose(3)
+            kind[(i, j)] = c
+            if c == 1:
+                g.add_edge(nodes[i], nodes[j])
+            elif c == 2:
+                g.add_catch_edge(nodes[i], nodes[j])
+        g.compute_rpo()
+        free = [p_ for p_ in pairs if kind[p_] == 0]
+        op = eng.choose(2 * len(free) + N)
+        if op < 2 * len(free):
+            i, j = free[op // 2]
+            kind[(i, j)] = 1 + op % 2
+            (g.add_edge if op % 2 == 0 else g.add_catch_edge)(nodes[i], nodes[j])
+            what = ['add_edge', 'add_catch_edge'][op % 2], i, j
+        else:
+            e = op - 2 * len(free)
+            g.entry = nodes[e]
+            what = ('entry', e, e)
+        g.compute_rpo()
+        rows = {}
+        todo = [g.entry]
+        while todo:
+            x = todo.pop()
+            if x in rows:
+                continue
+            rows[x] = ([nodes[j] for (i, j), c in kind.items() if i == x.i and c == 1], [nodes[j] for (i, j), c in kind.items() if i == x.i and c == 2])
+            todo += succ(rows, x)
+        if len(rows) != N:
+            return None
+        order = [g.entry] + [x for x in nodes if x is not g.entry]
+        bad = rpo_problems(order, rows, N)
+        return bad, [[i, j, c] for (i, j), c in kind.items() if c and not (i, j, c - 1) == (what[1], what[2], ['add_edge', 'add_catch_edge'].index(what[0]) if what[0] != 'entry' else -1)], list(what)
+    n = 0
+    for pc, (kind_, r) in eng.explore(go):
+        if kind_ == 'exc':
+            jc.concrete_violation(dict(prop='C19', N=N, edges=None, note=repr(r)), label=label, what='raised %r' % (r,))
+            continue
+        if r is None:
+            continue
+        n += 1
+        jc.reached('explored')
+        eng.st.obligations += 1
+        bad, edges, what = r
+        if bad:
+            jc.concrete_violation(dict(prop='C19', N=N, history=dict(edges=edges, then=what)), label=label, what=bad[0])
+        else:
+            eng.st.discharged += 1
+    if first == (0, 0):
+        jc.sample(dict(case=label, histories=n))
+
+
 def run(ctx, which):
     graphmod()
     from . import graphs as me
@@ -182,7 +251,9 @@ def run(ctx, which):
     if ctx.thorough:
         shard(5, 'normal', 2)
         shard(4, 'mixed', 2)
-    ctx.bounds = dict(graphs=['all digraphs on 3 nodes where every ordered pair is none / normal edge / catch edge (3^9)',
+    ctx.bounds = dict(histories='C19 only: every 3-node graph without self-loops built through add_node / add_edge / add_catch_edge, '
+                      'numbered, changed by one more add_edge / add_catch_edge / entry move, numbered again',
+                      graphs=['all digraphs on 3 nodes where every ordered pair is none / normal edge / catch edge (3^9)',
                               'all digraphs on 4 nodes with normal edges (2^16)'] +
                              (['5 nodes, out-degree <= 2', '4 nodes mixed edge kinds, out-degree <= 2'] if ctx.thorough else []),
                       note='self-loops and irreducible graphs included; unreachable nodes allowed for C18, rooted graphs only for C19')
@@ -198,6 +269,8 @@ def run(ctx, which):
     ctx.diff_unhooked(mod, [dict(prop=which, N=4, edges=[[0, 1, 0], [1, 2, 0], [2, 1, 0], [0, 3, 1], [3, 2, 0]]),
                             dict(prop=which, N=3, edges=[[0, 0, 0], [0, 2, 1], [2, 1, 0]])])
     ctx.pmap(job, jobs)
+    if which == 'C19':
+        ctx.pmap(job_history, [(3, f) for f in itertools.product(range(3), repeat=2)])
 
 
 def _concrete_graph(w):
@@ -232,7 +305,45 @@ def concrete(c):
     return [x.num for x in nodes]
 
 
+def replay_history(w):
+    from androguard.decompiler import graph
+    N = w['N']
+    h = w['history']
+    nodes = [Nd(i) for i in range(N)]
+    g = graph.Graph()
+    for x in nodes:
+        g.add_node(x)
+    g.entry = nodes[0]
+    kind = {}
+    for i, j, c in h['edges']:
+        kind[(i, j)] = c
+        (g.add_edge if c == 1 else g.add_catch_edge)(nodes[i], nodes[j])
+    g.compute_rpo()
+    first = [x.num for x in nodes]
+    op, i, j = h['then']
+    if op == 'entry':
+        g.entry = nodes[i]
+    else:
+        kind[(i, j)] = 1 if op == 'add_edge' else 2
+        getattr(g, op)(nodes[i], nodes[j])
+    g.compute_rpo()
+    rows = {}
+    todo = [g.entry]
+    while todo:
+        x = todo.pop()
+        if x in rows:
+            continue
+        rows[x] = ([nodes[b] for (a, b), c in kind.items() if a == x.i and c == 1], [nodes[b] for (a, b), c in kind.items() if a == x.i and c == 2])
+        todo += succ(rows, x)
+    order = [g.entry] + [x for x in nodes if x is not g.entry]
+    bad = rpo_problems(order, rows, N) if len(rows) == N else []
+    return bool(bad), 'edges %r (1 normal, 2 catch) numbered %r; then %r and compute_rpo again gives %r: %s' % (
+        h['edges'], first, h['then'], [x.num for x in nodes], '; '.join(bad[:3]))
+
+
 def replay(w):
+    if w.get('history'):
+        return replay_history(w)
     if w.get('edges') is None:
         return False, 'no graph recorded: %s' % w.get('note')
     g, nodes, rows = _concrete_graph(w)
